@@ -84,6 +84,7 @@ type inliner struct {
 	siteStack []*inlSite
 	subst     map[types.Object]rope
 	exprRepl  map[ast.Node]rope
+	defConv   map[ast.Stmt]int // callee declarations turned into assignments (1: has a value, 0: drop)
 	infoOf    map[string]*types.Info
 	asgCount  map[*FuncInfo]map[types.Object]int
 	dest      *ast.File                       // file the text being produced lands in
@@ -164,6 +165,23 @@ func (in *inliner) exprText(x ast.Expr) rope {
 
 // stmtText is textOf for a statement that may itself be a site.
 func (in *inliner) stmtText(st ast.Stmt) rope {
+	if mode, ok := in.defConv[st]; ok {
+		// the declaration of a callee local that was unified with a result target
+		switch t := st.(type) {
+		case *ast.AssignStmt:
+			out := in.exprText(t.Lhs[0])
+			out = append(out, glue(" = ", t.Pos(), -1)...)
+			return append(out, in.exprText(t.Rhs[0])...)
+		case *ast.DeclStmt:
+			vs := t.Decl.(*ast.GenDecl).Specs[0].(*ast.ValueSpec)
+			if mode == 1 {
+				out := in.exprText(vs.Names[0])
+				out = append(out, glue(" = ", t.Pos(), -1)...)
+				return append(out, in.exprText(vs.Values[0])...)
+			}
+			return glue("", t.Pos(), -1)
+		}
+	}
 	if s := in.sites[st]; s != nil && !s.off {
 		if r, ok := in.emitSite(s); ok {
 			return r
@@ -373,9 +391,22 @@ func (in *inliner) conv(list []ast.Stmt, lhs []string, s *inlSite) rope {
 					allBlank = false
 				}
 			}
-			if len(lhs) == 1 && len(t.Results) == 1 && flatten(in.exprText(t.Results[0])) == lhs[0] {
-				// x = x: the result is the target itself
-				return out
+			if len(lhs) == len(t.Results) && len(lhs) > 0 {
+				// x, y = x, y: every result is its target itself
+				same := true
+				for j, r := range t.Results {
+					if lhs[j] != "_" && flatten(in.exprText(r)) != lhs[j] {
+						same = false
+					}
+					if lhs[j] == "_" {
+						if _, isId := ast.Unparen(r).(*ast.Ident); !isId {
+							same = false
+						}
+					}
+				}
+				if same {
+					return out
+				}
 			}
 			if len(lhs) > 0 && len(t.Results) > 0 && !allBlank {
 				out = append(out, glue(strings.Join(lhs, ", ")+" = ", t.Pos(), s.id)...)
@@ -736,6 +767,20 @@ func (in *inliner) exprPure(info *types.Info, x ast.Expr) bool {
 		return ok
 	})
 	return ok
+}
+
+// mutatedAddr: the variable's address is taken (so it may be written through a pointer).
+func mutatedAddr(info *types.Info, body ast.Node, v *types.Var) bool {
+	hit := false
+	ast.Inspect(body, func(m ast.Node) bool {
+		if u, ok := m.(*ast.UnaryExpr); ok && u.Op == token.AND {
+			if id, ok := ast.Unparen(u.X).(*ast.Ident); ok && info.Uses[id] == v {
+				hit = true
+			}
+		}
+		return !hit
+	})
+	return hit
 }
 
 func flatten(r rope) string {
@@ -1331,6 +1376,106 @@ func (in *inliner) emitSite0(s *inlSite) (rope, bool) {
 			return nil, false
 		}
 	}
+	// result unification: the callee builds its results in locals declared once at the top level
+	// of its body and returns them in a single final return — those locals become the targets
+	var convStmts []ast.Stmt
+	if (s.form == formAssign || s.form == formIfInit) && len(body.List) > 0 {
+		if last, ok := body.List[len(body.List)-1].(*ast.ReturnStmt); ok && len(last.Results) == len(lhs) {
+			nret := 0
+			ast.Inspect(body, func(m ast.Node) bool {
+				switch m.(type) {
+				case *ast.FuncLit:
+					return false
+				case *ast.ReturnStmt:
+					nret++
+				}
+				return true
+			})
+			if nret == 1 {
+				as, _ := s.stmt.(*ast.AssignStmt)
+				if s.form == formIfInit {
+					as = s.stmt.(*ast.IfStmt).Init.(*ast.AssignStmt)
+				}
+				for j, r := range last.Results {
+					rid, ok := ast.Unparen(r).(*ast.Ident)
+					if !ok || lhs[j] == "_" {
+						continue
+					}
+					if _, isIdent := as.Lhs[j].(*ast.Ident); !isIdent {
+						continue
+					}
+					ro, _ := info.Uses[rid].(*types.Var)
+					if ro == nil || mutatedAddr(info, body, ro) {
+						continue
+					}
+					// its single top-level declaration
+					var decl ast.Stmt
+					mode, ndecl := 0, 0
+					for _, st := range body.List {
+						switch t := st.(type) {
+						case *ast.AssignStmt:
+							if t.Tok == token.DEFINE {
+								for _, l := range t.Lhs {
+									if id, ok := l.(*ast.Ident); ok && info.Defs[id] == ro {
+										ndecl++
+										if len(t.Lhs) == 1 && len(t.Rhs) == 1 {
+											decl, mode = t, 1
+										}
+									}
+								}
+							}
+						case *ast.DeclStmt:
+							if gd, ok := t.Decl.(*ast.GenDecl); ok && len(gd.Specs) == 1 {
+								if vs, ok := gd.Specs[0].(*ast.ValueSpec); ok && len(vs.Names) == 1 && info.Defs[vs.Names[0]] == ro {
+									ndecl++
+									decl, mode = t, 0
+									if len(vs.Values) == 1 {
+										mode = 1
+									}
+								}
+							}
+						}
+					}
+					total := 0
+					ast.Inspect(body, func(m ast.Node) bool {
+						if id, ok := m.(*ast.Ident); ok && info.Defs[id] == ro {
+							total++
+						}
+						return true
+					})
+					if decl == nil || ndecl != 1 || total != 1 {
+						continue
+					}
+					// a caller name pasted into the body must not be captured by another callee local
+					captured := false
+					ast.Inspect(body, func(m ast.Node) bool {
+						if id, ok := m.(*ast.Ident); ok && info.Defs[id] != nil && info.Defs[id] != ro && id.Name == lhs[j] {
+							if _, renamed := newSubst[info.Defs[id]]; !renamed {
+								captured = true
+							}
+						}
+						return true
+					})
+					for _, b := range binds {
+						if b.name == lhs[j] {
+							captured = true
+						}
+					}
+					if captured {
+						continue
+					}
+					newSubst[ro] = g("%s", lhs[j])
+					in.defConv[decl] = mode
+					convStmts = append(convStmts, decl)
+				}
+			}
+		}
+	}
+	defer func() {
+		for _, st := range convStmts {
+			delete(in.defConv, st)
+		}
+	}()
 	if s.form != formReturn && !tailReturns(body.List) {
 		return nil, false
 	}
@@ -1753,7 +1898,7 @@ func (fm *fileMap) lookup(off int) (ovSeg, bool) {
 // overlay cannot be type-checked.
 func Normalise(p *Prog, o LoadOpts, protected map[string]bool) (*Prog, []string) {
 	in := &inliner{p: p, protected: protected, src: map[string][]byte{}, sites: map[ast.Stmt]*inlSite{},
-		imports: map[*ast.File]map[string]string{}, used: map[int]bool{}, subst: map[types.Object]rope{}, exprRepl: map[ast.Node]rope{},
+		imports: map[*ast.File]map[string]string{}, used: map[int]bool{}, subst: map[types.Object]rope{}, exprRepl: map[ast.Node]rope{}, defConv: map[ast.Stmt]int{},
 		infoOf: map[string]*types.Info{}, asgCount: map[*FuncInfo]map[types.Object]int{}}
 	for _, fn := range p.funcList {
 		name := in.fname(fn.File.Pos())
